@@ -184,3 +184,113 @@ Print Assumptions C11_cell_text_fixed.
 Print Assumptions C11_column_text_cycles.
 Print Assumptions C11_iter.
 Print Assumptions C11_iter_from_fix.
+
+(* ====================================================================================== *)
+(* FILE LEVEL (appended).  Proofs in Proofs/FileRoundTrip*.v, Proofs/WriteIdemProofs.v.     *)
+(* ====================================================================================== *)
+(* The reader side of the fixed point, composed with the writer side above.
+
+     C11_reread_fixed_point_partial
+        write o m = WOk text m'  (m any file in memory, e.g. the result of a read) and the
+        file-level domain hypotheses on the written form hs of m' (file_hypsb: Props/C03.v
+        C03_file_hypsb_ok, Props/C01.v) give:
+          (a) write o m' = WOk text m'          — m' is a fixed point of write, the second,
+              third, ... write of the object lasio holds print the SAME text (C16), so
+              read (W^k) = read (W) for all k >= 1 trivially;
+          (b) read text = ROk l                  — lasio reads its own output without error;
+          (c) l IS the object m' left in memory by the write, as far as the property looks:
+              header items with the metadata C03 expects (header_read_back: values through
+              str() and num(), mnemonics case-mapped), ~Other with its lines stripped, no
+              custom section, data = the printed tokens of m' through the NULL rule
+              (C01_file_roundtrip; C01_file_cell_num / C01_file_cell_nan).
+        Hence R (W o m) is a function of the fixed point m' of the writer: the information the
+        first cycle keeps is exactly what m' holds; nothing further can be lost by writing
+        again WITHOUT re-reading.
+     `_partial`, what is missing for  R (W o (R (W o m))) ~ R (W o m)  (write applied to the
+     object READ BACK instead of the object left in memory):
+        (i)   closure of the domain: that the object read back (l with index_initial = its
+              index column) again satisfies file_hypsb after a write — conformance of the
+              re-read items (conf_item is about the texts str(value) that num() produced) —
+              F15 (a ~Curves unit starting with '.') is the known place where it fails;
+        (ii)  that write changes nothing observable on an object it has itself produced and
+              read back: STRT/STOP/STEP refresh on re-read values (C11_refresh_idem_values is
+              the in-memory half), standardize_value on values num() returns (C11_values_fixed
+              is the in-memory half), expected_item o expected_item = expected_item;
+        (iii) the ORACLE hypothesis Hfix (fmt % (fmt % x) = fmt % x as texts) to conclude that
+              the tokens of the second cycle are those of the first (C11_data_tokens_fixed).
+        The correspondence runs of harness/props/c11.py cover (i)-(iii) empirically. *)
+Require Import Sections WriteOptionsProofs WriteHeaderProofs WriteReadProofs WriteDataProofs WriteDataTextProofs ItemsBindProofs
+  FileRoundTripText FileRoundTripBlocks FileRoundTripFind FileRoundTripFirstPass FileRoundTripHeader
+  FileRoundTripData FileRoundTripLines FileRoundTrip FileRoundTripMain FileRoundTripCheck.
+
+Theorem C11_reread_fixed_point_partial :
+  forall fmtv fmt_diff fmt_pi fstr fzero numeq fhex ro o m text m' hs dl rts nt,
+  write fmtv fmt_diff fmt_pi fstr fzero numeq o m = WOk text m' ->
+  (wo_wrap o <> None ->
+   named_once (s_transforms (l_version (m_las m))) (s2l "WRAP") (s_items (l_version (m_las m)))) ->
+  write_sections fmtv fmt_diff fstr fzero numeq (wo_version o) (wo_wrap o) (col_fmt o 0%nat) m = Some hs ->
+  dsh_of fmtv fmt_pi fstr o hs = Some dl ->
+  las_null_text fstr (hs_las hs) = Some nt ->
+  opt_all (map (row_text fmtv fmt_pi o (Some nt) 0%nat) (las_rows (hs_las hs))) = Some rts ->
+  file_hypsb fmtv fmt_pi fstr fhex ro o hs nt = true -> o_ignore_data ro = false ->
+  write fmtv fmt_diff fmt_pi fstr fzero numeq o m' = WOk text m' /\
+  m_las m' = hs_las hs /\
+  exists l pn,
+    read fhex fstr numeq ro text = ROk l /\
+    header_read_back fstr ro hs l /\ null_read fstr ro hs pn /\
+    l_data l = data_result fhex numeq ro pn (List.length (s_items (l_curves (hs_las hs))))
+                 (tok_matrix fmtv o nt (las_rows (hs_las hs))).
+Proof.
+  intros fmtv fmt_diff fmt_pi fstr fzero numeq fhex ro o m text m' hs dl rts nt Hw Hn Hs Hdl Hnt Hrts Hb Hig.
+  split; [exact (write_idempotent fmtv fmt_diff fmt_pi fstr fzero numeq o m text m' Hn Hw)|].
+  split.
+  - destruct (write_ok_inv fmtv fmt_diff fmt_pi fstr fzero numeq o m text m' Hw) as (hs0 & d & Hs0 & _ & _ & ->).
+    rewrite Hs in Hs0. injection Hs0 as <-. reflexivity.
+  - exact (read_written_file_checked fmtv fmt_diff fmt_pi fstr fzero numeq fhex ro o m text m' hs dl rts nt
+             Hw Hs Hdl Hnt Hrts Hb Hig).
+Qed.
+
+(* ---- non-vacuity: ex_m (above), for wrap = None / True / False ------------------------------- *)
+Definition t_fhex (t : list N) : option (list N) := match py_float_dec t with Some _ => Some t | None => None end.
+Definition t_ro : ropts := mkropts false CasePreserve true true false.
+Definition t_hs (w : option bool) : hdr_sections :=
+  match write_sections t_fmtv t_fmt_diff t_fstr t_fzero t_numeq None w (col_fmt (ex_o w) 0%nat) ex_m with
+  | Some hs => hs
+  | None => mkhs false V20 [] [] [] [] [] empty_las
+  end.
+Definition t_text (w : option bool) : list N := match ex_write (ex_o w) ex_m with WOk t _ => t | WErr _ => [] end.
+
+Example C11_ex_file_domain : forall w,
+  write_sections t_fmtv t_fmt_diff t_fstr t_fzero t_numeq (wo_version (ex_o w)) (wo_wrap (ex_o w)) (col_fmt (ex_o w) 0%nat) ex_m
+    = Some (t_hs w) /\
+  file_hypsb t_fmtv t_fmt_pi t_fstr t_fhex t_ro (ex_o w) (t_hs w) (s2l "-999.25") = true /\
+  named_once (s_transforms (l_version (m_las ex_m))) (s2l "WRAP") (s_items (l_version (m_las ex_m))).
+Proof.
+  intros w. split; [destruct w as [[|]|]; vm_compute; reflexivity|].
+  split; [destruct w as [[|]|]; vm_compute; reflexivity|].
+  split; [vm_compute; apply le_n|].
+  intros it Hin. cbn [ex_m m_las ex_las l_version s_items In] in Hin.
+  destruct Hin as [<-|[<-|[]]]; reflexivity.
+Qed.
+
+(* one full cycle more, computed: read the written text, write what was read (index_initial =
+   the index column read), read again — the same header metadata and the same data *)
+Definition t_canon (l : las) :=
+  (map meta (s_items (l_version l)), map meta (s_items (l_well l)), map meta (s_items (l_curves l)),
+   map meta (s_items (l_params l)), l_other l, l_data l).
+Example C11_ex_two_cycles : forall w,
+  match read t_fhex t_fstr t_numeq t_ro (t_text w) with
+  | ROk l1 =>
+      match ex_write (ex_o w) (mkmlas l1 (Some (nth 0%nat (l_data l1) []))) with
+      | WOk t2 _ =>
+          match read t_fhex t_fstr t_numeq t_ro t2 with
+          | ROk l2 => t_canon l2 = t_canon l1 /\ t2 = t_text w
+          | RErr _ => False
+          end
+      | WErr _ => False
+      end
+  | RErr _ => False
+  end.
+Proof. intros [[|]|]; vm_compute; split; reflexivity. Qed.
+
+Print Assumptions C11_reread_fixed_point_partial.
